@@ -586,3 +586,306 @@ def d4_10(ctx):
             ok = kind == "return" and isinstance(res, Obj) and res.__dict__.get("kind") == "failed-response" and res._error == "One or more fragment responses failed" and segs == want_segs
         ctx.check(ok, key, fn, f"{label}: {n} segment(s) of {seg} bytes at their byte offsets, {'last reply returned' if want_ok else 'failed reply returned'}",
                   f"fragmented write on {label}: {kind} {res!r}; segments sent at {[(o, len(v) if isinstance(v, bytes) else v) for o, v in segs] if isinstance(segs, list) and all(isinstance(x, tuple) for x in segs) else segs!r} (expected {[(o, len(v)) for o, v in want_segs]})")
+
+
+# ---------------------------------------------------------------------------------------------------------------- tag list
+@rule("C05", "D5.15", "T-WITNESS", floor=4)
+def d5_15(ctx):
+    """get_tag_list folded on witness scopes (the per-scope upload is a marker that needs the name caches and the
+    program / task / module registers the symbol classifier reads): '*' uploads the controller scope and then every program
+    registered by it, None only the controller scope, a name only that program (keeping the registers); the result is every
+    tag once, in upload order; it replaces `tags` only when caching is asked for; the upload caches are dropped afterwards."""
+    lx = _lx(ctx)
+    fn = lx.methods["get_tag_list"]
+    iso = lx.methods["_isolate_user_tags"]
+    need_info = sorted({n.slice.value for n in ast.walk(iso) if isinstance(n, ast.Subscript) and isinstance(n.slice, ast.Constant) and attr_path(n.value) == "self._info" and isinstance(n.slice.value, str)})
+    need_cache = sorted({n.slice.value for m in ("_isolate_user_tags", "_get_data_type", "_get_structure_makeup") for n in ast.walk(lx.methods[m])
+                         if isinstance(n, ast.Subscript) and isinstance(n.slice, ast.Constant) and attr_path(n.value) == "self._cache" and isinstance(n.slice.value, str)})
+    if len(need_info) < 3 or len(need_cache) < 3:
+        ctx.undecided(ckey(lx.key + ".get_tag_list", "registers"), fn, f"the symbol classifier reads only {need_info} / {need_cache}")
+        return
+    for label, program, cache, want_calls, want_tags in (
+        ("all scopes", "*", True, [None, "P1", "P2"], ["A", "B", "Program:P1.x", "Program:P2.y"]),
+        ("controller scope only", None, True, [None], ["A", "B"]),
+        ("one program", "P1", True, ["P1"], ["Program:P1.x"]),
+        ("all scopes, not cached", "*", False, [None, "P1", "P2"], ["A", "B", "Program:P1.x", "Program:P2.y"]),
+    ):
+        me = Obj(_info={"name": "plc", "programs": {"OLD": {}}, "tasks": {"OLDT": {}}, "modules": {"OLDM": {}}}, _cache=None, _tags={"stale": {"tag_name": "stale"}})
+        calls, problems = [], []
+
+        def upload(a, k, me=me, calls=calls, problems=problems):
+            prog = a[0] if a else k.get("program")
+            calls.append(prog)
+            for key_ in need_info:
+                if not isinstance(me._info, dict) or key_ not in me._info:
+                    problems.append(f"_info[{key_!r}] missing when the {prog or 'controller'} scope is uploaded")
+            for key_ in need_cache:
+                if not isinstance(me._cache, dict) or key_ not in me._cache:
+                    problems.append(f"_cache[{key_!r}] missing when the {prog or 'controller'} scope is uploaded")
+            if prog is None:
+                if me._info.get("programs") or me._info.get("tasks") or me._info.get("modules"):
+                    problems.append("program / task / module registers not reset before a controller-scope upload")
+                if isinstance(me._info.get("programs"), dict):
+                    me._info["programs"].update({"P1": {}, "P2": {}})
+                return [{"tag_name": "A"}, {"tag_name": "B"}]
+            return [{"tag_name": f"Program:{prog}.{'x' if prog == 'P1' else 'y'}"}]
+
+        params = [a.arg for a in fn.args.args]
+        kind, res = run_function(ctx, lx.module, fn, {"self": me, params[1]: program, params[2]: cache}, call_hook=self_call("_get_tag_list", upload), deep=False)
+        key = ckey(lx.key + ".get_tag_list", f"witness:{label}")
+        if kind == "unknown":
+            ctx.undecided(key, fn, f"get_tag_list not foldable on {label}: {res}")
+            continue
+        names = [t.get("tag_name") for t in res] if kind == "return" and isinstance(res, list) else res
+        diffs = list(problems[:2])
+        if kind != "return" or names != want_tags:
+            diffs.append(f"returns {kind} {names!r} (expected {want_tags!r})")
+        if calls != want_calls:
+            diffs.append(f"uploads scopes {calls!r} (expected {want_calls!r})")
+        tags_now = sorted(me._tags) if isinstance(me._tags, dict) else me._tags
+        if cache and tags_now != sorted(want_tags):
+            diffs.append(f"`tags` holds {tags_now!r} afterwards (expected the uploaded tags)")
+        if not cache and tags_now != ["stale"]:
+            diffs.append(f"`tags` was replaced although cache=False: {tags_now!r}")
+        if cache and isinstance(me._tags, dict) and any(me._tags[n].get("tag_name") != n for n in me._tags):
+            diffs.append("`tags` is not keyed by tag name")
+        if program == "P1" and "OLD" not in me._info.get("programs", {}):
+            diffs.append("a single-program upload discards the program register")
+        if me._cache is not None:
+            diffs.append("the upload caches are kept after the upload")
+        ctx.check(not diffs, key, fn, f"{label}: scopes {want_calls}, tags {want_tags}", f"get_tag_list({program!r}, cache={cache}): {diffs[:3]}", witness=label)
+
+
+@rule("C05", "D5.16", "T-WITNESS", floor=6)
+def d5_16(ctx):
+    """The symbol-list request loop and reply parser folded on witnesses: each request addresses the symbol class starting at
+    the instance after the last one received (0 first), inside `Program:<name>` for a program scope (prefix added once), asks
+    for the attributes the parser decodes (external access only from the firmware that has it); a failed reply raises; the
+    parser appends one record per symbol with every attribute at its position and continues (status 0x06) from the last
+    instance + 1 or stops (status 0)."""
+    import struct as _st
+
+    lx = _lx(ctx)
+    fn = lx.methods["_get_instance_attribute_list_service"]
+    minver = ctx.folder.module_value(lx.module.name, "MIN_VER_EXTERNAL_ACCESS")
+    sym = ctx.folder.eval(ast.parse("ClassCode.symbol_object", mode="eval").body, lx.module)
+    svc = ctx.folder.eval(ast.parse("Services.get_instance_attribute_list", mode="eval").body, lx.module)
+    if not isinstance(minver, int):
+        ctx.undecided(ckey(lx.key + "._get_instance_attribute_list_service", "witness"), fn, "MIN_VER_EXTERNAL_ACCESS is not a constant")
+        return
+
+    def seg_hook(call, env, it):
+        n = call_name(call) or ""
+        if n == "LogicalSegment":
+            return ("L",) + tuple(it.ev(x, env) for x in call.args)
+        if n == "DataSegment":
+            return ("D", it.ev(call.args[0], env))
+        if (attr_path(call.func) or "") == "PADDED_EPATH.encode":
+            kw = {k.arg: it.ev(k.value, env) for k in call.keywords}
+            return ("EPATH", tuple(it.ev(call.args[0], env)), kw.get("length", False))
+        return UNKNOWN
+
+    for label, program, rev, replies, want_paths, want_attrs in (
+        ("controller scope, two rounds", None, minver, [(True, 42), (True, -1)], [(("L", sym, "class_id"), ("L", 0, "instance_id")), (("L", sym, "class_id"), ("L", 42, "instance_id"))], 7),
+        ("program scope by bare name", "MainProgram", minver, [(True, -1)], [(("D", "Program:MainProgram"), ("L", sym, "class_id"), ("L", 0, "instance_id"))], 7),
+        ("program scope by full name", "Program:Aux", minver - 1, [(True, 7), (True, -1)], [(("D", "Program:Aux"), ("L", sym, "class_id"), ("L", 0, "instance_id")), (("D", "Program:Aux"), ("L", sym, "class_id"), ("L", 7, "instance_id"))], 6),
+        ("failed reply", None, minver, [(False, -1)], None, 7),
+    ):
+        sent, parsed = [], []
+
+        def new_request(call, env, it, sent=sent):
+            if (call_name(call) or "") == "SendUnitDataRequestPacket" and isinstance(call.func, ast.Name):
+                return Obj(kind="request", seq=it.ev(call.args[0], env), added=[])
+            f = call.func
+            if isinstance(f, ast.Attribute) and f.attr == "add" and isinstance(f.value, ast.Name) and isinstance(env.get(f.value.id), Obj) and env[f.value.id].__dict__.get("kind") == "request":
+                args = []
+                for a in call.args:
+                    if isinstance(a, ast.Starred):
+                        args.extend(it.ev(a.value, env))
+                    else:
+                        args.append(it.ev(a, env))
+                env[f.value.id].added.extend(args)
+                return env[f.value.id]
+            return UNKNOWN
+
+        def send(a, k, sent=sent, replies=replies):
+            sent.append(a[0])
+            valid, _ = replies[len(sent) - 1]
+            return _resp(valid, error=None if valid else "Privilege violation", idx=len(sent) - 1)
+
+        def parse(a, k, parsed=parsed, replies=replies):
+            parsed.append(a[0].idx)
+            a[1].append(("symbol", a[0].idx))
+            return replies[a[0].idx][1]
+
+        me = Obj(_sequence="SEQ", revision_major=rev)
+        kind, res = run_function(ctx, lx.module, fn, {"self": me, fn.args.args[1].arg: program}, call_hook=chain(seg_hook, new_request, self_call("send", send), self_call("_parse_instance_attribute_list", parse)), deep=False)
+        key = ckey(lx.key + "._get_instance_attribute_list_service", f"witness:{label}")
+        if kind == "unknown":
+            ctx.undecided(key, fn, f"_get_instance_attribute_list_service not foldable on {label}: {res}")
+            continue
+        if want_paths is None:
+            ctx.check(kind == "raise" and res == "ResponseError" and not parsed, key, fn, "a failed reply raises ResponseError and is not parsed", f"failed reply: {kind} {res!r}, parsed replies {parsed!r}")
+            continue
+        diffs = []
+        if kind != "return" or res != [("symbol", i) for i in range(len(replies))]:
+            diffs.append(f"returns {kind} {res!r}")
+        frames = [s.added for s in sent if isinstance(s, Obj)]
+        for i, (fr, wp) in enumerate(zip(frames, want_paths)):
+            attrs = fr[3:]
+            if len(fr) < 3 or fr[0] != svc or fr[1] != ("EPATH", wp, True):
+                diffs.append(f"request {i} is {fr[:2]!r} (expected service {svc!r} and the padded path of {wp!r})")
+            elif fr[2] != _st.pack("<H", want_attrs) or len(attrs) != want_attrs or len(set(attrs)) != want_attrs or (b"\x0a\x00" in attrs) != (rev >= minver):
+                diffs.append(f"request {i} asks for {len(attrs)} attribute(s) {attrs!r} with count field {fr[2]!r} (expected {want_attrs}, external access {'included' if rev >= minver else 'left out'})")
+        if len(frames) != len(want_paths):
+            diffs.append(f"{len(frames)} request(s) sent (expected {len(want_paths)})")
+        ctx.check(not diffs, key, fn, f"{label}: {len(want_paths)} request(s), attributes {want_attrs}", f"symbol-list upload ({label}): {diffs[:3]}", witness=label)
+
+    fn = lx.methods["_parse_instance_attribute_list"]
+    ea = ctx.folder.module_value(lx.module.name, "EXTERNAL_ACCESS")
+
+    def record(inst, name, st, addr, oaddr, sc, dims, access):
+        b_ = _st.pack("<I", inst) + _st.pack("<H", len(name)) + name.encode() + _st.pack("<H", st) + _st.pack("<IIIIII", addr, oaddr, sc, *dims)
+        return b_ + (bytes([access]) if access is not None else b"")
+
+    SUCCESS = ctx.folder.module_value(lx.module.name, "SUCCESS")
+    INS = ctx.folder.module_value(lx.module.name, "INSUFFICIENT_PACKETS")
+    for label, rev, status, recs, want_next in (
+        ("two symbols, more to come", minver, INS, [(5, "Counter", 0x00C4, 1, 2, 3, (0, 0, 0), 0), (9, "Arr", 0x20C4, 4, 5, 6, (10, 0, 0), 2)], 10),
+        ("last reply", minver, SUCCESS, [(12, "Flags", 0x00C1, 7, 8, 9, (0, 0, 0), 0)], -1),
+        ("firmware without external access", minver - 1, SUCCESS, [(3, "Old", 0x00C3, 1, 1, 1, (2, 3, 4), None)], -1),
+    ):
+        data = b"".join(record(*r) for r in recs)
+        out = []
+        me = Obj(revision_major=rev)
+        kind, res = run_function(ctx, lx.module, fn, {"self": me, fn.args.args[1].arg: _resp(True, data=data, service_status=status), fn.args.args[2].arg: out}, deep=False)
+        key = ckey(lx.key + "._parse_instance_attribute_list", f"witness:{label}")
+        if kind == "unknown":
+            ctx.undecided(key, fn, f"_parse_instance_attribute_list not foldable on {label}: {res}")
+            continue
+        want = [{"instance_id": r[0], "tag_name": r[1], "symbol_type": r[2], "symbol_address": r[3], "symbol_object_address": r[4], "software_control": r[5], "dimensions": list(r[6]),
+                 "external_access": (ea.get(r[7], "Unknown") if isinstance(ea, dict) else None)} for r in recs]
+        ctx.check(kind == "return" and res == want_next and out == want, key, fn, f"{label}: {len(recs)} record(s), continue at {want_next}", f"symbol-list reply ({label}): {kind} {res!r} (expected {want_next}); records {out!r} (expected {want!r})"[:900], witness=label)
+    # an empty / cut reply
+    kind, res = run_function(ctx, lx.module, fn, {"self": Obj(revision_major=minver), fn.args.args[1].arg: _resp(True, data=record(5, "Counter", 0xC4, 1, 2, 3, (0, 0, 0), 0)[:-6], service_status=SUCCESS), fn.args.args[2].arg: []}, deep=False)
+    key = ckey(lx.key + "._parse_instance_attribute_list", "witness:cut reply")
+    if kind == "unknown":
+        ctx.undecided(key, fn, f"_parse_instance_attribute_list not foldable on a cut reply: {res}")
+    else:
+        ctx.check(kind == "raise" and res == "ResponseError", key, fn, "a reply cut inside a record raises ResponseError", f"cut symbol-list reply: {kind} {res!r}")
+
+
+# ---------------------------------------------------------------------------------------------------------------- tag info
+@rule("C01", "D1.17", "T-WITNESS", floor=8)
+def d1_17(ctx):
+    """Tag-definition lookup and request parsing folded on witnesses: a base tag gives its own definition, a member path walks
+    the nested structure definitions by member name (array indices ignored), an unknown base or member is RequestError; every
+    requested tag gets a numbered request record merged with what the tag parser found, or its error - one bad tag never
+    disturbs the others."""
+    lx = _lx(ctx)
+    fn = lx.methods["_get_tag_info"]
+    leaf = {"tag_type": "atomic", "data_type_name": "DINT"}
+    inner = {"tag_type": "struct", "data_type_name": "Inner", "data_type": {"internal_tags": {"leaf": leaf, "arr": {"tag_type": "atomic", "data_type_name": "INT", "array": 4}}}}
+    udt = {"tag_name": "udt", "tag_type": "struct", "data_type_name": "Outer", "data_type": {"internal_tags": {"inner": inner, "m": leaf}}}
+    tags = {"dint": {"tag_name": "dint", "tag_type": "atomic", "data_type_name": "DINT"}, "udt": udt, "Program:P.x": {"tag_name": "Program:P.x", "tag_type": "atomic", "data_type_name": "REAL"}}
+    strip = lambda call, env, it: it.ev(call.args[0], env).split("[")[0] if (attr_path(call.func) or "") in ("util.strip_array", "strip_array") else UNKNOWN  # noqa: E731
+    for label, base, attrs, want in (
+        ("base tag", "dint", [], ("return", tags["dint"])), ("base tag with index", "dint[3]", [], ("return", tags["dint"])), ("member", "udt", ["m"], ("return", leaf)),
+        ("nested member", "udt", ["inner", "leaf"], ("return", leaf)), ("nested member through indices", "udt[1]", ["inner[2]", "arr[3]"], ("return", inner["data_type"]["internal_tags"]["arr"])),
+        ("program-scoped tag", "Program:P.x", [], ("return", tags["Program:P.x"])), ("unknown base tag", "nope", [], ("raise", "RequestError")), ("unknown member", "udt", ["zzz"], ("raise", "RequestError")),
+        ("unknown nested member", "udt", ["inner", "zzz"], ("raise", "RequestError")),
+    ):
+        kind, res = run_function(ctx, lx.module, fn, {"self": Obj(_tags=tags), fn.args.args[1].arg: base, fn.args.args[2].arg: list(attrs)}, call_hook=strip, deep=False)
+        _report(ctx, ckey(lx.key + "._get_tag_info", f"witness:{label}"), fn, label, (kind, res), want, "_get_tag_info")
+    fn = lx.methods["_parse_requested_tags"]
+
+    def parse(a, k):
+        if a[0] == "bad":
+            raise _Raise("RequestError")
+        if a[0] == "none":
+            return None
+        return {"plc_tag": a[0].upper(), "rw": a[1] if len(a) > 1 else k.get("rw")}
+
+    str_hook = lambda call, env, it: "<error text>" if (call_name(call) or "") == "str" and len(call.args) == 1 and isinstance(call.args[0], ast.Name) and call.args[0].id == "err" else UNKNOWN  # noqa: E731
+    for label, tgs, rw in (("three tags, the middle one bad", ["a", "bad", "b"], "r"), ("write mode", ["x"], "w"), ("generator of tags", ["p", "q"], "w")):
+        kind, res = run_function(ctx, lx.module, fn, {"self": Obj(), fn.args.args[1].arg: list(tgs), fn.args.args[2].arg: rw}, call_hook=chain(str_hook, self_call("_parse_tag_request", parse)), deep=False)
+        want = {i: ({"request_id": i, "request_tag": t, "plc_tag": t.upper(), "rw": rw} if t != "bad" else {"request_id": i, "request_tag": t, "error": "<error text>"}) for i, t in enumerate(tgs)}
+        _report(ctx, ckey(lx.key + "._parse_requested_tags", f"witness:{label}"), fn, label, (kind, res), ("return", want), "_parse_requested_tags")
+
+
+@rule("C14", "D14.9", "T-WITNESS", floor=3)
+def d14_9(ctx):
+    """get_plc_name / set_plc_time folded on witness replies (generic_message is a marker): the name request is Get Attributes
+    All on the program-name object, instance 1, decoded as STRING, and the name is returned and kept only for a valid reply (a
+    failed one raises ResponseError); the clock is set with Set Attribute List on the wall-clock object: one attribute, number
+    6, the given microseconds as ULINT."""
+    lx = _lx(ctx)
+    ev = lambda s: ctx.folder.eval(ast.parse(s, mode="eval").body, lx.module)  # noqa: E731
+    fn = lx.methods["get_plc_name"]
+    for label, valid in (("valid reply", True), ("failed reply", False)):
+        seen = {}
+        me = Obj(_info={})
+        gm = self_call("generic_message", lambda a, k: seen.update(k) or _resp(valid, value="MainPLC" if valid else None, error=None if valid else "Service not supported"))
+        kind, res = run_function(ctx, lx.module, fn, {"self": me}, call_hook=gm, deep=False)
+        key = ckey(lx.key + ".get_plc_name", f"witness:{label}")
+        if kind == "unknown":
+            ctx.undecided(key, fn, f"get_plc_name not foldable on a {label}: {res}")
+            continue
+        req_ok = seen.get("service") == ev("Services.get_attributes_all") and seen.get("class_code") == ev("ClassCode.program_name") and seen.get("instance") in (1, b"\x01") and getattr(getattr(seen.get("data_type"), "ci", None), "name", None) == "STRING"
+        if valid:
+            ctx.check(kind == "return" and res == "MainPLC" and me._info.get("name") == "MainPLC" and req_ok, key, fn, "valid reply: the name is returned and kept in info",
+                      f"get_plc_name with a valid reply: {kind} {res!r}, info {me._info!r}, request {dict((k, v) for k, v in seen.items() if k != 'data_type')!r}")
+        else:
+            ctx.check(kind == "raise" and res == "ResponseError" and "name" not in me._info, key, fn, "failed reply: ResponseError, no name kept", f"get_plc_name with a failed reply: {kind} {res!r}, info {me._info!r}")
+    fn = lx.methods["set_plc_time"]
+    seen = {}
+
+    def struct_hook(call, env, it):
+        n = call_name(call) or ""
+        if n == "Struct" and isinstance(call.func, ast.Name):
+            return Obj(kind="struct", members=tuple(getattr(getattr(it.ev(a, env), "ci", None), "name", "?") for a in call.args))
+        f = call.func
+        if isinstance(f, ast.Attribute) and f.attr == "encode" and isinstance(f.value, ast.Name) and isinstance(env.get(f.value.id), Obj) and env[f.value.id].__dict__.get("kind") == "struct":
+            return ("encoded", env[f.value.id].members, tuple(it.ev(call.args[0], env)))
+        return UNKNOWN
+
+    kind, res = run_function(ctx, lx.module, fn, {"self": Obj(), fn.args.args[1].arg: 1_600_000_000_123_456}, call_hook=chain(struct_hook, self_call("generic_message", lambda a, k: seen.update(k) or "REPLY")), deep=False)
+    key = ckey(lx.key + ".set_plc_time", "witness:explicit time")
+    if kind == "unknown":
+        ctx.undecided(key, fn, f"set_plc_time not foldable: {res}")
+    else:
+        ok = kind == "return" and res == "REPLY" and seen.get("service") == ev("Services.set_attribute_list") and seen.get("class_code") == ev("ClassCode.wall_clock_time") and seen.get("instance") in (1, b"\x01") \
+            and seen.get("request_data") == ("encoded", ("UINT", "UINT", "ULINT"), (1, 6, 1_600_000_000_123_456))
+        ctx.check(ok, key, fn, "Set Attribute List, wall-clock object instance 1, data = UINT 1, UINT 6, ULINT microseconds", f"set_plc_time(1600000000123456): {kind} {res!r} with request {seen!r}")
+
+
+@rule("C16", "D16.8", "T-WITNESS", floor=3)
+def d16_8(ctx):
+    """get_plc_info folded on witness replies: Get Attributes All on the identity object instance 1, unconnected (wrapped in an
+    Unconnected Send unless the target is a Micro800), decoded as the module identity; a valid reply's identity is returned
+    with the key-switch position looked up from its two status bytes; a failed reply raises ResponseError."""
+    lx = _lx(ctx)
+    ev = lambda s: ctx.folder.eval(ast.parse(s, mode="eval").body, lx.module)  # noqa: E731
+    fn = lx.methods["get_plc_info"]
+    ks = ctx.folder.module_value(lx.module.name, "KEYSWITCH")
+    if not isinstance(ks, dict) or not ks:
+        ctx.undecided(ckey(lx.key + ".get_plc_info", "witness"), fn, "KEYSWITCH is not a constant table")
+        return
+    b0 = sorted(ks)[0]
+    b1 = sorted(ks[b0])[0]
+    for label, valid, micro, status in (("valid reply", True, False, bytes([b0, b1])), ("valid reply, unknown key-switch bytes", True, True, b"\xfe\xfd"), ("failed reply", False, False, None)):
+        seen = {}
+        gm = self_call("generic_message", lambda a, k: seen.update(k) or _resp(valid, value={"vendor": "Rockwell", "status": status} if valid else None, error=None if valid else "Service not supported"))
+        kind, res = run_function(ctx, lx.module, fn, {"self": Obj(_micro800=micro)}, call_hook=gm, deep=False)
+        key = ckey(lx.key + ".get_plc_info", f"witness:{label}")
+        if kind == "unknown":
+            ctx.undecided(key, fn, f"get_plc_info not foldable on a {label}: {res}")
+            continue
+        if not valid:
+            ctx.check(kind == "raise" and res == "ResponseError", key, fn, "failed reply: ResponseError", f"get_plc_info with a failed reply: {kind} {res!r}")
+            continue
+        req_ok = seen.get("service") == ev("Services.get_attributes_all") and seen.get("class_code") == ev("ClassCode.identity_object") and seen.get("instance") in (1, b"\x01") and seen.get("connected") is False \
+            and seen.get("unconnected_send") is (not micro) and getattr(getattr(seen.get("data_type"), "ci", None), "name", None) == "ModuleIdentityObject"
+        want_ks = ks.get(status[0], {}).get(status[1], "UNKNOWN")
+        ctx.check(kind == "return" and isinstance(res, dict) and res.get("vendor") == "Rockwell" and res.get("keyswitch") == want_ks and req_ok, key, fn, f"{label}: identity returned with keyswitch {want_ks!r}",
+                  f"get_plc_info ({label}): {kind} {res!r}; request {dict((k, v) for k, v in seen.items() if k != 'data_type')!r}")
